@@ -25,7 +25,7 @@ package participle
 //@   ensures result.apply == nil && result.deepestError == nil && result.deepestErrorDepth == 0 && result.depth == 0 && result.trace == nil && result.allowTrailing == false
 //@   ensures result.firstMatch == -1
 
-//@ func (*parseContext).Branch [C02 C01 C13]
+//@ func (*parseContext).Branch [C02 C01 C13 C11]
 //@   frame-tags C09
 //@   fresh result
 //@   ensures result != nil && fresh(result) && result.PeekingLexer == p.PeekingLexer && result.apply == nil && len(result.apply) == 0
@@ -40,7 +40,7 @@ package participle
 //@   ensures p.apply[len(p.apply)-1] != nil && fresh(p.apply[len(p.apply)-1]) && fresh(p.apply)
 //@   ensures p.apply[len(p.apply)-1].tokens == tokens && p.apply[len(p.apply)-1].strct == strct && p.apply[len(p.apply)-1].field == field && p.apply[len(p.apply)-1].fieldValue == fieldValue
 
-//@ func (*parseContext).Accept [C02 C01 C13]
+//@ func (*parseContext).Accept [C02 C01 C13 C11]
 //@   frame-tags C09
 //@   requires branch != nil && p != branch
 //@   ensures errOK(old(p.deepestError)) && errOK(branch.deepestError) ==> errOK(p.deepestError) [C06]
@@ -78,7 +78,7 @@ package participle
 
 // Stop: the exact commit threshold of the property ("abandoned only if it consumed no more than the lookahead"),
 // checked with machine-integer overflow obligations on the threshold arithmetic.
-//@ func (*parseContext).Stop [C13 C01 C02]
+//@ func (*parseContext).Stop [C13 C01 C02 C11]
 //@   frame-tags C09
 //@   check-overflow
 //@   requires branch != nil && p != branch
@@ -341,9 +341,12 @@ package participle
 //@   loop 1 invariant -1 <= rangeindex && rangeindex < len(u.members)
 //@   loop 1 decreases len(u.members) - rangeindex
 
-//@ func (*union).Parse [C01 C02 C06]
+// A union runs its alternatives directly on the caller's context, so a committed failure inside a member leaves the
+// cursor where it happened and an enclosing choice point sees how far the attempt went (C13).
+//@ func (*union).Parse [C01 C02 C06 C13]
 //@   frame-tags C09
 //@   implements node.Parse
+//@   before call (*participle.disjunction).Parse#1: assert arg1 == ctx && arg2 == parent [C13 C01]
 //@   modifies family(reflect.Value)
 //@   use wfUnion(u) at entry
 //@   loop 1 invariant -1 <= rangeindex && rangeindex < len(vals)
@@ -558,6 +561,14 @@ package participle
 //@   requires p != nil
 //@   modifies p.useLookahead
 //@   ensures result0 == nil && p.useLookahead == old(n)
+
+// Elide(types...) extends the elision set: several Elide options add up (C10: the set of elided types is the union
+// of what was asked for).
+//@ func Elide$1 [C10]
+//@   requires p != nil
+//@   modifies p.elide
+//@   ensures result0 == nil && len(p.elide) == len(old(p.elide)) + len(types)
+//@   ensures forall(k, 0, len(old(p.elide)), p.elide[k] == old(p.elide[k])) && forall(k, 0, len(types), p.elide[len(old(p.elide)) + k] == types[k])
 
 //@ func Lexer$1 [C15]
 //@   requires p != nil
